@@ -71,8 +71,9 @@ GEN_THEOREMS = ['fusion_positions', 'fusion_category_choice', 'fusion_match_crit
 def prepare(ctx):
     """Translator tie (see gen_tie.py): FusionART's own methods are regenerated from the source on every run and proved
     equal to the channel-wise definitions the property theorems are stated about"""
-    from .gen_tie import gen_prepare
-    gen_prepare(ctx, GEN_THEOREMS, 'FusionART.category_choice / match_criterion_bin with skip_channels, the W property and get_channel_position_tuples (ftrans -> ArtGen/Fusion.lean) = choiceSkip / the conjunction over the channels not skipped / fusedW of ArtModel/Fusion.lean')
+    from .gen_tie import gen_prepare, extra_theorems
+    from .. import ftrans2
+    gen_prepare(ctx, GEN_THEOREMS + extra_theorems("ftrans2"), ftrans2.COVERS + '; FusionART.category_choice / match_criterion_bin with skip_channels, the W property and get_channel_position_tuples (ftrans -> ArtGen/Fusion.lean) = choiceSkip / the conjunction over the channels not skipped / fusedW of ArtModel/Fusion.lean')
 
 
 def run(ctx):
